@@ -332,7 +332,33 @@ def must_zero_bytes():
     return out
 
 
-def run_s9(chk):
+def _callers_scrub(P, routine, reg):
+    """every C call site of the routine passes a local for that argument and scrubs it on every path from the call to return"""
+    ARGS = ['rdi', 'rsi', 'rdx', 'rcx', 'r8', 'r9']
+    if reg not in ARGS:
+        return False
+    ai = ARGS.index(reg)
+    sites = 0
+    seenf = set()
+    for tu in P.tus():
+        for f in P.funcs(tu):
+            if (f.name, f.loc) in seenf:
+                continue
+            for b_, i_, ev in f.events(('call',)):
+                if ev['e'].get('fn') != routine or len(ev['e'].get('a', [])) <= ai:
+                    continue
+                seenf.add((f.name, f.loc))
+                sites += 1
+                br = cf.base_ref(ev['e']['a'][ai])
+                if br is None or br.get('p') or br.get('g'):
+                    return False
+                ok, _ = _must_scrub(f, b_, i_ + 1, br['n'], set())
+                if not ok:
+                    return False
+    return sites > 0
+
+
+def run_s9(chk, P=None):
     s9 = chk.rule('S9', 'every assembled routine still overwrites with zero, on EVERY path to every return, at least as many bytes of each '
                         'destination family (own frame, buffers reached from one argument) as on the reference tree: a scrub made conditional '
                         'on a length or moved behind a branch no longer covers all paths', floor=50)
@@ -345,6 +371,9 @@ def run_s9(chk):
             continue
         for k, nb in sorted(fams.items()):
             have = cur.get(name, {}).get(k, 0)
+            if have < nb and k.startswith('arg:') and P is not None and _callers_scrub(P, name, k[4:]):
+                s9.ok('%s:%s' % (name, k), 'every C caller scrubs the buffer after the call')
+                continue
             s9.check(have >= nb, '%s:%s' % (name, k), name,
                      '%s zeroes %d bytes of %s on every path, %d on the reference tree: some path now returns without that scrub' % (
                          name, have, 'its stack frame' if k == 'frame' else 'the memory reached from %s' % k.split(':')[1], nb))
@@ -459,7 +488,7 @@ def run(chk):
     run_asm(chk, P)
     run_s2(chk, P)
     run_s8(chk)
-    run_s9(chk)
+    run_s9(chk, P)
     run_s10(chk, P)
     # S4: road block coverage and whole-manager clears (shared)
     inits.rule_reattach(chk, P)
